@@ -86,6 +86,10 @@ func judge(input []byte) (kind, msg, class string) {
 			if err == nil {
 				return "C07/accepted-" + perr.Class, fmt.Sprintf("input with %s (%s) was accepted: %s -> %s", perr.Class, perr.Msg, show(input), show(out)), perr.Class
 			}
+			// the canonicalizer is long-lived package state: the same input must be rejected again
+			if out2, err2 := canonicalizer.MarshalCanonical(input); err2 == nil {
+				return "C07/accepted-" + perr.Class, fmt.Sprintf("input with %s (%s) was rejected by the first call and accepted by the second: %s -> %s", perr.Class, perr.Msg, show(input), show(out2)), perr.Class
+			}
 			return "", "", perr.Class
 		}
 		return "", "", "unclassified"
@@ -99,6 +103,9 @@ func judge(input []byte) (kind, msg, class string) {
 	}
 	if !bytes.Equal(out, want) {
 		return "C07/not-rfc8785", fmt.Sprintf("canonical form differs from RFC 8785: input %s\n got  %s\n want %s", show(input), show(out), show(want)), "ok"
+	}
+	if out2, err3 := canonicalizer.MarshalCanonical(input); err3 != nil || !bytes.Equal(out2, want) {
+		return "C07/not-rfc8785", fmt.Sprintf("a second call on the same input gives another result: input %s\n got  %s (%v)\n want %s", show(input), show(out2), err3, show(want)), "ok"
 	}
 	again, err2 := canonicalizer.MarshalCanonical(out)
 	if err2 != nil || !bytes.Equal(again, out) {
